@@ -48,7 +48,8 @@ def load_findings():
 _G = {}
 EARLY_STOP = {"skipped": 0}
 # properties whose replay harness is single-threaded and deterministic: run as a bounded stand-in on every check
-BOUNDED_ALWAYS = {"C01", "C02", "C03", "C04", "C05", "C06", "C07", "C08", "C09", "C10", "C11", "C16", "C17", "C18", "C19", "C20"}
+# C12/C13 harnesses use real threads and the OS scheduler: not run as stand-ins (a verdict must not depend on scheduling)
+BOUNDED_ALWAYS = {"C01", "C02", "C03", "C04", "C05", "C06", "C07", "C08", "C09", "C10", "C11", "C14", "C15", "C16", "C17", "C18", "C19", "C20"}
 
 
 def _init_worker(tier, seed):
@@ -219,7 +220,8 @@ def main(argv=None):
     if prop in BOUNDED_ALWAYS and os.path.exists(harness_path) and not args.only:
         import subprocess
         budget = "20" if tier == "quick" else "120"
-        env = dict(os.environ, PYTHONPATH=os.environ.get("VERIF_REPO", "/repo"), VERIF_SEED=str(seed), PYTHONDONTWRITEBYTECODE="1")
+        env = dict(os.environ, PYTHONPATH=os.environ.get("VERIF_REPO", "/repo"), VERIF_SEED=str(seed), PYTHONDONTWRITEBYTECODE="1",
+                   VERIF_NO_REAL="1")      # Twisted harnesses: virtual-time reactor only (no wall-clock scenarios)
         harness_proc = (subprocess.Popen(["/venv/bin/python", harness_path, "--budget", budget], stdout=subprocess.PIPE,
                                          stderr=subprocess.STDOUT, text=True, env=env, cwd="/tmp"), budget, time.time())
     outs = []
